@@ -136,7 +136,7 @@ def one(cfg):
         listed += len(gmap[ip]["objects"]); checked += rep["map_objects_checked"]
         for pr in rep["problems"] or []:
             v.append(("pairing-problem", "%s: %s: %s" % (label, ip, pr)))
-        if not rep["map_path_ok"]:
+        if not rep["map_path_ok"] and ip != MODP:   # package main keeps the path "main" by design
             v.append(("path-differs", "%s: %s: garble map path %r but the build uses %r" % (label, ip, gmap[ip]["path"], rep["garbled_dir"])))
         for w in rep["map_wrong"] or []:
             kind = re.search(r"\((\w+) ", w)
@@ -148,6 +148,7 @@ def one(cfg):
     # reverse: every listed path and name must map back
     text = []; expect = []
     for ip, ent in sorted(gmap.items()):
+        if ip == MODP: continue
         text.append("path %s end" % ent["path"]); expect.append("path %s end" % ip)
     rep_by_ip = {r["import_path"]: r for r in reports}
     for ip, ent in sorted(gmap.items()):
@@ -161,6 +162,8 @@ def one(cfg):
         nrev += 1
         if o != e:
             what = "path" if t.startswith("path") else "name"
+            if what == "name" and e.rsplit(".", 1)[-1].split(" ")[0] in ("Base", "Plain", "Generic") and ("field " + e.rsplit(".", 1)[-1].split(" ")[0]) in (rep_by_ip.get(e.split(" ")[1].rsplit(".", 1)[0], {}).get("map_listed") or {}):
+                what = "embedded"
             v.append(("reverse-mismatch:" + what, "%s: garble reverse turns %r into %r, expected %r" % (label, t, o, e)))
     shutil.rmtree(dd, ignore_errors=True)
     return v, listed, checked, pkgs, nrev
